@@ -175,7 +175,7 @@ def skelNames : List String := [
   "prof = ContextualProfile()",
   "script_file = find_module_script(options.script)",
   "script_file = find_script(options.script)",
-  "sys.path.insert(0, os.path.dirname(script_file))",
+  "sys.path.insert(0, os.path.dirname(os.path.realpath(script_file)))",
   "__file__ = script_file",
   "global_profiler = line_profiler.profile",
   "install_profiler = global_profiler._kernprof_overwrite",
